@@ -404,173 +404,63 @@ theorem limiter_states_per_remedy (ps : List DPol) (hacc : accepted ps = true) :
   apply hne
   rw [← n₁, ← n₂, ← e₁, ← e₂, hk]
 
-/-- A request whose chain holds ONE throttling remedy (next to any number of retry remedies, anywhere in the
-    chain) is answered exactly as that remedy's `OnRequest` answers: same verdict, same rejection status — the
-    response-phase remedies do not touch it — and the same counter step. -/
-theorem dispatch_single_throttle (cap : CapFn) (st : State Key) (ps : List DPol) (url method : String)
+/-- A request whose chain holds ONE throttling remedy next to any number of remedies that cannot answer a request
+    themselves — retry, authentication (o_auth / api_key / basic), account orchestration — in ANY order (partial:
+    chains with a fixed-response or caching remedy are excluded; caching is finding F09g) is answered exactly as that
+    remedy's `OnRequest` answers: same verdict, same rejection status and body, the same counter step, nothing
+    stored. -/
+theorem dispatch_single_throttle_partial (cap : CapFn) (s : DState) (ps : List DPol) (url method : String)
     (hs : List (String × String)) (t : Nat) (r : Remedy)
+    (hplain : (chain ps url method).all plain = true)
     (h : (chain ps url method).filterMap remedyOf = [r]) :
-    dispatchStep cap st ps url method hs t = pluginStep cap st r hs t :=
-  runChain_single_throttle cap hs t _ st r h
+    dispatchStep cap s ps url method hs t
+      = ({ s with lim := (pluginStep cap s.lim r hs t).1 }, toDAns (pluginStep cap s.lim r hs t).2) := by
+  simp only [dispatchStep, runChain_single_throttle cap url method hs t _ s r hplain h,
+    storeEarly_plain _ _ url method _ hplain]
 
-/-- A request whose chain holds no throttling remedy passes and touches no counter. -/
-theorem dispatch_no_throttle (cap : CapFn) (st : State Key) (ps : List DPol) (url method : String)
-    (hs : List (String × String)) (t : Nat) (h : (chain ps url method).filterMap remedyOf = []) :
-    dispatchStep cap st ps url method hs t = (st, .noop) :=
-  runChain_no_throttle cap hs t _ st .noop h
+/-- A request whose chain holds no throttling remedy (and no fixed-response / caching remedy) passes and touches no
+    counter. -/
+theorem dispatch_no_throttle (cap : CapFn) (s : DState) (ps : List DPol) (url method : String)
+    (hs : List (String × String)) (t : Nat) (hplain : (chain ps url method).all plain = true)
+    (h : (chain ps url method).filterMap remedyOf = []) :
+    dispatchStep cap s ps url method hs t = (s, .pass) := by
+  simp only [dispatchStep, runChain_no_throttle cap url method hs t _ s .pass hplain h, storeEarly]
+
+/-- F09g.  A caching remedy in the chain of a throttling remedy stores the throttling REJECTION (the early response
+    is run through the response side of the chain) and replays it: allowed 1 per 2 s; the second request of window
+    500 250 is rejected (rightly) — and so are the requests 10 s and 20 s later, in empty windows, although the
+    throttling remedy itself lets them pass. -/
+theorem cached_rejection_violation_witness :
+    ∃ (ps : List DPol) (r : Remedy), accepted ps = true ∧
+      let u := "api.example.com/orders"
+      let s1 := dispatchStep capExact {} ps u "GET" [] 1000500000000
+      let s2 := dispatchStep capExact s1.1 ps u "GET" [] 1000500000001
+      let s3 := dispatchStep capExact s2.1 ps u "GET" [] 1010500000000
+      [s1.2, s2.2, s3.2] = [.pass, .early 429 tooMany, .early 429 tooMany] ∧
+      (pluginStep capExact s2.1.lim r [] 1010500000000).2 = .noop := by
+  refine ⟨[⟨some ("api.example.com/orders", "GET"), "t1", true, .throttle ⟨"", 1, 2, 0, false, 0, none, true⟩⟩,
+           ⟨some ("api.example.com/orders", "GET"), "c1", true, .cache 100000⟩],
+          ⟨"t1", 1, 2, 0, false, 0, none, true⟩, ?_, ?_⟩ <;> decide +kernel
 
 /-! ### Non-vacuity -/
 
 /-- dispatcher level: the document of seed C09-s11 (one name on two endpoints) is refused; with distinct names
-    `/orders` (2 per hour) and `/invoices` (5 per two hours) keep their own counts, a retry remedy covering 429
-    sits in both chains and the third `/orders` request leaves with 429. -/
+    `/orders` (2 per hour, behind an o_auth remedy listed FIRST — seed C09-s13) and `/invoices` (5 per two hours) keep
+    their own counts, a retry remedy covering 429 sits in both chains and the third `/orders` request leaves with
+    429 and the throttling body. -/
 example :
     let th (a w : Nat) : DKind := .throttle ⟨"", a, w, 429, false, 0, none, true⟩
     let dup : List DPol := [⟨some ("api.example.com/orders", "GET"), "throttle", true, th 2 3600⟩,
       ⟨some ("api.example.com/invoices", "GET"), "throttle", true, th 5 7200⟩]
-    let ok : List DPol := [⟨some ("api.example.com/orders", "GET"), "t-orders", true, th 2 3600⟩,
-      ⟨some ("api.example.com/invoices", "GET"), "t-invoices", true, th 5 7200⟩, ⟨none, "retry", true, .retry⟩]
-    let s1 := dispatchStep capExact [] ok "api.example.com/orders" "GET" [] 1000500000000
+    let ok : List DPol := [⟨some ("api.example.com/orders", "GET"), "oauth", true, .other⟩,
+      ⟨some ("api.example.com/orders", "GET"), "t-orders", true, th 2 3600⟩,
+      ⟨some ("api.example.com/invoices", "GET"), "t-invoices", true, th 5 7200⟩, ⟨none, "retry", true, .retry 2 429 429⟩]
+    let s1 := dispatchStep capExact {} ok "api.example.com/orders" "GET" [] 1000500000000
     let s2 := dispatchStep capExact s1.1 ok "api.example.com/orders" "GET" [] 1000500000001
     let s3 := dispatchStep capExact s2.1 ok "api.example.com/invoices" "GET" [] 1000500000002
     let s4 := dispatchStep capExact s3.1 ok "api.example.com/orders" "GET" [] 1000500000003
     accepted dup = false ∧ accepted ok = true ∧
-    [s1.2, s2.2, s3.2, s4.2] = [.noop, .noop, .noop, .early 429] := by
+    [s1.2, s2.2, s3.2, s4.2] = [.pass, .pass, .pass, .early 429 tooMany] := by
   decide +kernel
-
-
-/-- the former F09e witness: " a" and "a" (50 % of 4 each) are different groups with their own counters — after
-    " a" used its share, "a" still gets its own. -/
-example :
-    let r : Remedy := ⟨"r", 4, 1, 0, false, 0,
-      some ⟨some "X-Group", [(" a", 50, 1), ("a", 50, 1)], "block", 0, 1⟩, true⟩
-    let ps : List PReq := [⟨r, [("X-Group", " a")], 1000500000000⟩, ⟨r, [("X-Group", " a")], 1000500000001⟩,
-      ⟨r, [("X-Group", " a")], 1000500000002⟩, ⟨r, [("X-Group", "a")], 1000500000003⟩]
-    pluginRun capExact [] ps = [.noop, .noop, .early 429, .noop] ∧
-    holds capExact (observeS ps (pluginRun capExact [] ps)) = true := by
-  decide +kernel
-
-/-- `group_counter_exact` / `plugin_spec_holds_groups`: production wiring, "Gold" (50 %) and "gold" (20 %) of
-    10 are different groups with different counters: "Gold" uses up its 5, "gold" still gets its own 2; an
-    unknown "TeamA"/"teama" pair under `use_default_allocation` (30 % → 3 each) likewise. -/
-example :
-    let r : Remedy := ⟨"r", 10, 1, 0, false, 0,
-      some ⟨some "X-Group", [("Gold", 50, 1), ("gold", 20, 1)], "use_default_allocation", 30, 1⟩, true⟩
-    let q (v : String) (i : Nat) : PReq := ⟨r, [("X-Group", v)], 1000500000000 + i⟩
-    let ps : List PReq := [q "Gold" 0, q "Gold" 1, q "Gold" 2, q "Gold" 3, q "Gold" 4, q "Gold" 5,
-      q "gold" 6, q "gold" 7, q "gold" 8, q "TeamA" 9, q "TeamA" 10, q "TeamA" 11, q "TeamA" 12, q "teama" 13]
-    pluginRun capExact [] ps = [.noop, .noop, .noop, .noop, .noop, .early 429, .noop, .noop, .early 429,
-      .noop, .noop, .noop, .early 429, .noop] ∧
-    groupFaithful (observeP ps (pluginRun capExact [] ps)) = true ∧
-    holds capExact (observeS ps (pluginRun capExact [] ps)) = true := by
-  decide +kernel
-
-
-/-- `spec_holds`/`bound`/`exact`: a history in the domain with passes AND a rejection in one window, a window
-    roll-over exactly ON the grid boundary (1001.0 s) and two keys. -/
-example :
-    let rs : List (Req Nat) := [⟨1, 1000500000000, wd1 1 2⟩, ⟨2, 1000500000001, wd1 1 1⟩,
-      ⟨1, 1000600000000, wd1 1 2⟩, ⟨1, 1000700000000, wd1 1 2⟩, ⟨2, 1000700000001, wd1 1 1⟩,
-      ⟨1, 1001000000000, wd1 1 2⟩]
-    clean (runL capExact [] rs) = true ∧
-    (runL capExact [] rs).map (·.pass) = [true, true, true, false, false, true] := by
-  decide
-
-/-- the former F09a witness (requests at 1000.5 s, 1001.0 s, 3 × 1001.1 s; allowed 2) is in the domain and now
-    behaves: the boundary request opens window 1001, which admits exactly 2. -/
-example :
-    let rs : List (Req Unit) := [⟨(), 1000500000000, wd1 1 2⟩, ⟨(), 1001000000000, wd1 1 2⟩,
-      ⟨(), 1001100000000, wd1 1 2⟩, ⟨(), 1001100000000, wd1 1 2⟩, ⟨(), 1001100000000, wd1 1 2⟩]
-    clean (runL capExact [] rs) = true ∧
-    (runL capExact [] rs).map (·.pass) = [true, true, true, false, false] ∧
-    holds capExact (runL capExact [] rs) = true := by
-  decide
-
-/-- the former F09c witness (window size 3 s → 10 s between requests; allowed 2) is in the domain and now
-    behaves: two passes under the 10 s configuration, then rejections until the 10 s window ends. -/
-example :
-    let rs : List (Req Unit) := [⟨(), 1000100000000, wd1 3 2⟩, ⟨(), 1001500000000, wd1 10 2⟩,
-      ⟨(), 1001500000001, wd1 10 2⟩, ⟨(), 1002500000000, wd1 10 2⟩, ⟨(), 1010000000000, wd1 10 2⟩]
-    clean (runL capExact [] rs) = true ∧
-    (runL capExact [] rs).map (·.pass) = [true, true, true, false, true] ∧
-    holds capExact (runL capExact [] rs) = true := by
-  decide
-
-/-- spill-over: allowed 2 per 1 s window, one pass in window 1000 ⇒ window 1001 admits 3 (clean history). -/
-example :
-    let wd : WindowData := ⟨1000000000, 2, .one, true, 31⟩
-    let rs : List (Req Nat) := [⟨1, 1000500000000, wd⟩, ⟨1, 1001500000000, wd⟩, ⟨1, 1001500000001, wd⟩,
-      ⟨1, 1001500000002, wd⟩, ⟨1, 1001500000003, wd⟩]
-    clean (runL capExact [] rs) = true ∧
-    (runL capExact [] rs).map (·.pass) = [true, true, true, true, false] := by
-  decide
-
-/-- the former F09b witness: 100 × 7 % — the code's cap is 7, the 8th request of the window is rejected. -/
-example :
-    let wd : WindowData := ⟨1000000000, 100, .pct 7 1, false, 0⟩
-    let rs : List (Req Unit) := (List.range 9).map (fun i => ⟨(), 1000500000000 + i, wd⟩)
-    capUnits 100 (.pct 7 1) = 7 ∧ clean (runL capUnits [] rs) = true ∧
-    (runL capUnits [] rs).map (·.pass) = [true, true, true, true, true, true, true, false, false] ∧
-    holds capExact (runL capUnits [] rs) = true := by
-  decide
-
-/-- `bound_moving_clock`: the same two calls as in `second_reading_violation_witness`, but with ONE reading each
-    (whatever the clock does afterwards): the call just before the boundary is rejected. -/
-example :
-    (runL capExact [] (stamp [1000500000000, 1000999999999, 1001000000001]
-        [((), wd1 1 1), ((), wd1 1 1), ((), wd1 1 1)])).map (·.pass) = [true, false, true] := by
-  decide
-
-/-- the former F09f witness (allowed 2 per 1 s; spill-over collected while enabled, then the remedy is
-    reconfigured with spill-over OFF): the later windows admit exactly 2 again. -/
-example :
-    let on : WindowData := ⟨1000000000, 2, .one, true, 31⟩
-    let off : WindowData := ⟨1000000000, 2, .one, false, 31⟩
-    let rs : List (Req Unit) := [⟨(), 1000500000000, on⟩, ⟨(), 1001500000000, on⟩,
-      ⟨(), 1002500000000, off⟩, ⟨(), 1002500000001, off⟩, ⟨(), 1002500000002, off⟩,
-      ⟨(), 1005500000000, off⟩, ⟨(), 1005500000001, off⟩, ⟨(), 1005500000002, off⟩]
-    clean (runL capExact [] rs) = true ∧
-    (runL capExact [] rs).map (·.pass) = [true, true, true, true, false, true, true, false] := by
-  decide
-
-/-- huge allowances (the former overflow of `scaledCeil`): 1e11 per window at ratio 1, and 50 % of 2^63 − 1. -/
-example : capUnits 100000000000 .one = 100000000000 ∧
-    capUnits 9223372036854775807 (.pct 50 1) = 4611686018427387904 ∧
-    capExact 9223372036854775807 (.pct 50 1) = 4611686018427387904 := by
-  decide
-
-/-- the former F09d witness (allowed 2 per 1 s, spill-over on; window 1000 used up; scrapes in the idle windows
-    1001–1003; requests in window 1004): the scrapes read 0 and change nothing — 2 pass, as without scrapes. -/
-example :
-    let wd : WindowData := ⟨1000000000, 2, .one, true, 31⟩
-    let ops : List (Op Unit) := [.req ⟨(), 1000500000000, wd⟩, .req ⟨(), 1000500000001, wd⟩,
-      .scrape 1001500000000, .scrape 1002500000000, .scrape 1003500000000,
-      .req ⟨(), 1004500000000, wd⟩, .req ⟨(), 1004500000001, wd⟩, .req ⟨(), 1004500000002, wd⟩]
-    clean (runOps capExact [] ops) = true ∧
-    (runOps capExact [] ops).map (·.pass) = [true, true, true, true, false] := by
-  decide
-
-/-- `bound_all_schedules` / `schedule_equivalent_to_sequential`: three concurrent calls on one key (cap 2) and one
-    on another key, sections interleaved (thread 2 runs its `TryToIncrement` first, thread 0 last): the third
-    `TryToIncrement` on the shared key is the rejected one. -/
-example :
-    let calls : List (Call Nat) := [⟨7, wd1 1 2, "r", 2⟩, ⟨7, wd1 1 2, "r", 2⟩, ⟨7, wd1 1 2, "r", 2⟩, ⟨8, wd1 1 1, "q", 1⟩]
-    let sched : List (Nat × Nat) := [(0, 1000500000000), (1, 1000500000000), (2, 1000500000001), (0, 1000500000001),
-      (2, 1000500000002), (3, 1000500000002), (2, 1000500000003), (1, 1000500000003), (3, 1000500000004),
-      (1, 1000500000005), (3, 1000500000006), (0, 1000500000007)]
-    ((runC capExact calls (initC calls) sched).done.reverse.map (fun d => (d.1, d.2.pass)))
-      = [(2, true), (1, true), (3, true), (0, false)] := by
-  decide
-
-/-- plugin level: two groups with 25 % / 75 % of 4, an unknown group under `block`, configured status 503. -/
-example :
-    let r : Remedy := ⟨"r", 4, 1, 503, false, 0,
-      some ⟨some "X-Group", [("a", 25, 1), ("b", 75, 1)], "block", 0, 1⟩, true⟩
-    let ps : List PReq := [⟨r, [("X-Group", "a")], 1000500000000⟩, ⟨r, [("X-Group", "a")], 1000500000001⟩,
-      ⟨r, [("X-Group", "b")], 1000500000002⟩, ⟨r, [("X-Group", "zzz")], 1000500000003⟩]
-    pluginRun capExact [] ps = [.noop, .early 503, .noop, .early 503] ∧
-    clean (observe ps (pluginRun capExact [] ps)) = true ∧
-    (observe ps (pluginRun capExact [] ps)).length = 3 := by
-  decide +kernel   -- (`String.toLower` is defined by well-founded recursion: only the kernel evaluates it)
 
 end LunarVerif.C09
